@@ -164,6 +164,11 @@ def checkCase (strict : List String) (c : Case) : CaseResult := Id.run do
   let wide := cfg[3]?.getD "0" == "1"
   let opts := nat! (cfg[5]?.getD "0")
   let finalNudge := opts % 2 == 1
+  -- family `twin`: the wide-enough promise is for the connectors lo ≤ index < hi only (the others run in the narrow corridor)
+  let twin := cfg[8]?.getD "" == "twin"
+  let twLo := nat! (cfg[9]?.getD "0")
+  let twHi := nat! (cfg[10]?.getD "0")
+  let pairWide : Nat → Nat → Bool := fun i j => wide && (!twin || (twLo ≤ i && i < twHi && twLo ≤ j && j < twHi))
   let mut s : St := { strict := strict }
   s := bump s s!"d.{ratToString d}"
   s := bump s s!"m.{m}"
@@ -262,7 +267,7 @@ def checkCase (strict : List String) (c : Case) : CaseResult := Id.run do
         if before then sharedBefore := sharedBefore + 1
         if after then
           s := bump s "pairs.shared.after"
-          if wide && !commonEndpoint ri rj then
+          if pairWide i j && !commonEndpoint ri rj then
             let fam := if c.tag == "endseg-tie" then "[endseg-tie] end segment on the line obstacle edge + buffer, free side" else if c.tag == "endseg-off" then "[endseg-off] free side" else "wide corridor"
             let msg := s!"{fam} (W={ratToString w} ≥ (m+1)·d={ratToString (((m : Rat) + 1) * d)}): connectors {i} and {j} share a collinear stretch in displayRoute(): {di.map showP} / {dj.map showP}"
             if finalNudge then s := gated s "opt-final-nudge" msg else s := fail s msg
@@ -276,7 +281,7 @@ def checkCase (strict : List String) (c : Case) : CaseResult := Id.run do
               -- class narrow-sep (corridor narrower than (m+1)·d only): the region is infeasible,
               -- VPSC drops constraints as unsatisfiable, nudgeOrthogonalRoutes' `satisfied` test
               -- looks at the fixed variables only and the "solution" is applied (1e-10 apart)
-              if wide then s := fail s msg else s := gated s "narrow-sep" msg
+              if pairWide i j then s := fail s msg else s := gated s "narrow-sep" msg
           | none => s := bump s "pairs.separated.no-longer-parallel"
   s := bump s "pairs.shared.before" sharedBefore
   -- the corridor as one region of the model: limits (clause b) and separation via `genCons`
